@@ -102,6 +102,8 @@ def _to_int_array(x):
     from openfisca_core.indexed_enums import EnumArray
     if isinstance(x, EnumArray):
         return np.asarray(x.view(np.ndarray)).astype(np.int64)
+    if x.dtype.kind in ("O", "U", "S"):          # str variables: "s<n>" <-> n
+        return np.array([int((v.decode() if isinstance(v, bytes) else str(v))[1:]) for v in x.tolist()], dtype=np.int64)
     if x.dtype.kind == "M":
         return (x.astype("datetime64[D]") - np.datetime64("0001-01-01")).astype(np.int64) + 1
     if x.dtype.kind == "b":
@@ -230,7 +232,7 @@ def build_system(case: SysCase, ctx: _Ctx | None = None):
     household = entities.GroupEntity("household", "households", "", "", roles=[{"key": "member", "plural": "members"}])
     tbs = taxbenefitsystems.TaxBenefitSystem([person, household])
     E5 = Enum("E5", {f"m{i}": f"m{i}" for i in range(ENUM_SIZE)})
-    vt = {"int": int, "float": float, "bool": bool, "enum": Enum, "date": dt.date}
+    vt = {"int": int, "float": float, "bool": bool, "enum": Enum, "date": dt.date, "str": str}
     for i, v in enumerate(case.vars):
         attrs = dict(value_type=vt[v.vtype], entity=person if v.entity == 0 else household,
                      definition_period=DateUnit(v.unit))
@@ -239,6 +241,8 @@ def build_system(case: SysCase, ctx: _Ctx | None = None):
             attrs["default_value"] = list(E5)[v.dflt]
         elif v.vtype == "date":
             attrs["default_value"] = dt.date.fromordinal(v.dflt)
+        elif v.vtype == "str":
+            attrs["default_value"] = f"s{v.dflt}"
         elif v.vtype == "bool":
             attrs["default_value"] = bool(v.dflt)
         elif v.vtype == "float":
@@ -294,6 +298,8 @@ def _input_array(var: Var, vals, E5):
         return np.array([list(E5)[x] for x in vals], dtype=object)
     if var.vtype == "date":
         return np.array([np.datetime64(dt.date.fromordinal(x)) for x in vals], dtype="datetime64[D]")
+    if var.vtype == "str":
+        return np.array([f"s{x}" for x in vals], dtype=object)
     if var.vtype == "bool":
         return np.array([bool(x) for x in vals])
     if var.vtype == "float":
@@ -315,13 +321,14 @@ def canon_array(x) -> str:
 EXACT_LIMIT = 2 ** 22
 
 
-def beyond_lattice(out: str) -> bool:
-    """some value is too large to be exact in float32 / int32 arithmetic (numeric policy, DESIGN section 4)"""
-    import re
-    return any(abs(int(x)) >= EXACT_LIMIT for x in re.findall(r"(?<![@/\d,-])-?\d+|(?<=[:=,])-?\d+", out) if len(x) < 15 and not _is_date_like(x))
-
-
-def _is_date_like(x: str) -> bool:
+def values_too_large(out: str) -> bool:
+    """some returned value is too large to be exact in float32 / int32 arithmetic (numeric policy,
+    DESIGN section 4): such cases are not compared"""
+    res = out.split("|")[0]
+    for r in res.split(";"):
+        if r.startswith("ok:"):
+            if any(abs(int(x)) >= EXACT_LIMIT for x in r[3:].split("#")[0].split(",") if x):
+                return True
     return False
 
 
@@ -420,7 +427,7 @@ def compatible(target_unit: str, caller_unit: str) -> list:
 def _compat(var, caller_unit):
     """enum and date variables are never summed over time (their values are not amounts)"""
     cs = compatible(var.unit, caller_unit)
-    if var.vtype in ("enum", "date"):
+    if var.vtype in ("enum", "date", "str"):
         cs = [c for c in cs if not c[1]]
     return cs
 
@@ -487,13 +494,13 @@ def gen_vars(rng, n, spiral=False, cycle=False, fault_ids=None, bad_rate=0.0, un
     for i in range(n):
         unit = rng.choice(units or ["month", "month", "month", "year", "year", "day", "eternity"])
         ent = 0 if rng.random() < 0.7 else 1
-        vtype = rng.choice(["int", "float", "float", "bool", "enum", "date"]) if not spiral else rng.choice(["int", "float"])
+        vtype = rng.choice(["int", "float", "float", "bool", "enum", "date", "str"]) if not spiral else rng.choice(["int", "float"])
         dflt = {"int": rng.randint(-3, 5), "float": rng.randint(-3, 5), "bool": rng.randint(0, 1), "enum": rng.randrange(ENUM_SIZE),
-                "date": dt.date(1970, 1, 1).toordinal() + rng.randint(0, 5)}[vtype]
+                "date": rng.randint(1, 60), "str": rng.randint(0, 9)}[vtype]
         v = Var(entity=ent, vtype=vtype, unit=unit, dflt=dflt)
         vars_.append(v)
     for i, v in enumerate(vars_):
-        if v.vtype in ("enum", "date"):
+        if v.vtype in ("enum", "date", "str"):
             continue                                   # inputs / defaults only
         nf = rng.choice([0, 1, 1, 1, 2, 3]) if i > 0 or spiral else 0
         if v.unit == "eternity":
@@ -562,7 +569,9 @@ def gen_inputs(rng, vars_, nP, nG, rate=0.25):
                 elif v.vtype == "enum":
                     vals = [rng.randrange(ENUM_SIZE) for _ in range(n)]
                 elif v.vtype == "date":
-                    vals = [dt.date(1980, 1, 1).toordinal() + rng.randint(0, 400) for _ in range(n)]
+                    vals = [rng.randint(1, 400) for _ in range(n)]      # dates of year 1-2: small ordinals stay exact in float32 sums
+                elif v.vtype == "str":
+                    vals = [rng.randint(0, 30) for _ in range(n)]
                 else:
                     vals = [rng.randint(-5, 40) for _ in range(n)]
                 inputs.append((i, tok, vals))
@@ -581,7 +590,7 @@ def gen_requests(rng, vars_, k, wrong=0.08, add=0.12):
             if rng.random() < 0.3 and v.unit != "eternity":
                 tok = rng.choice(POOL[v.unit])[:-1] + "2"      # size 2
             reqs.append(("calc", i, tok))
-        elif r < wrong + add and v.unit in ("month", "day") and v.vtype not in ("enum", "date"):
+        elif r < wrong + add and v.unit in ("month", "day") and v.vtype not in ("enum", "date", "str"):
             tok = rng.choice(["year/2018,1,1/1", "month/2018,1,1/3", "month/2017,12,1/2"] if v.unit == "month" else ["month/2018,1,1/1", "day/2018,1,30/3"])
             reqs.append(("add", i, tok))
         else:
